@@ -96,14 +96,14 @@ def run(ck):
                                   "input": mode or "numpy", "dtype": dt or "float64",
                                   "transform": tf.describe() if tf else None, "detail": detail})
 
-    replay(g_num, "1d", 40 if quick else 500)
-    replay(g_stop, "stop", 0 if quick else 400, dask_share=0.15 if quick else 0.5)
-    replay(g_2d, "2d", 20 if quick else 300)
+    replay(g_num, "1d", 40 if quick else 280)
+    replay(g_stop, "stop", 0 if quick else 220, dask_share=0.15 if quick else 0.5)
+    replay(g_2d, "2d", 20 if quick else 150)
     ck.extra["m2_scenarios"] = nscn
     ck.extra["m2_outcomes"] = dict(outcomes)
 
     # ---------------- M3
-    m3(ck, em, rng, 40 if quick else 600)
+    m3(ck, em, rng, 40 if quick else 300)
 
 
 def m3(ck, em, rng, ntraces):
